@@ -45,9 +45,9 @@ Proof.
   rewrite (tfor_index_map (smooth_ln_item lg fl ln_counter max_level)).
   - apply tbind_ret.
   - intros a x b. cbv beta. rewrite tindex_mid. cbn [tbind]. cbv zeta.
-    unfold smooth_ln_item. destruct x as [n|l c]; cbn [nv_int tbind ttry texn_eqb]; [|reflexivity].
+    unfold smooth_ln_item. destruct x as [n|l c]; cbn [nv_int tbind ttry ttry_else texn_eqb]; [|reflexivity].
     rewrite !gen_calc_level_eq. unfold calc_level, int_truediv.
-    destruct (ln_counter =? 0)%Z; cbn [tbind ttry texn_eqb]; rewrite tsetindex_mid; reflexivity.
+    destruct (ln_counter =? 0)%Z; try unfold ttry; try unfold ttry_else; cbn [tbind texn_eqb nv_int]; rewrite ?tsetindex_mid; cbn [tbind]; rewrite ?tsetindex_mid; reflexivity.
 Qed.
 
 (* ------------------------------------------------------------------ *)
@@ -153,18 +153,38 @@ Ltac al_proj :=
 
 Ltac step := repeat (dict_norm; al_proj; cbn [tget tbind negb]).
 
+(* one position never changes the n-gram size *)
+Lemma parse_pos_ngram pw S i S' : parse_pos pw S i = TOk S' -> al_ngram S' = al_ngram S.
+Proof.
+  unfold parse_pos. cbv zeta. destruct S as [a1 ng a3 a4 g a6 a7 a8 a9]. al_proj.
+  destruct (afind ostr_eqb _ g); [|destruct (in_alphabet a1 _)];
+    try (match goal with |- context [tbind ?m _] => destruct m end; cbn [tbind]; [|discriminate]);
+    intro H; inversion H; repeat match goal with |- context [if ?c then _ else _] => destruct c end; reflexivity.
+Qed.
+
+(* decide an equation between boolean combinations of integer comparisons *)
+Ltac zbool :=
+  repeat match goal with
+         | |- context [(?a <? ?b)%Z] => destruct (Z.ltb_spec a b)
+         | |- context [(?a <=? ?b)%Z] => destruct (Z.leb_spec a b)
+         end; cbn [negb andb orb]; first [reflexivity | exfalso; lia].
+
 Theorem gen_alookup_parse_eq : forall A pw, py_alookup_parse lg fl A pw = parse A pw.
 Proof.
   intros A pw. unfold py_alookup_parse, parse. cbv zeta.
+  match goal with |- (if ?c then _ else _) = (if ?c' then _ else _) => replace c with c' by zbool end.
   destruct ((tlen pw <? al_min_length A)%Z || (al_max_length A <? tlen pw)%Z); [reflexivity|].
   destruct (tindex (al_ln_lookup A) (tlen pw - 1)) as [v|x]; [|reflexivity]. cbn [tbind].
   destruct (nv_int v) as [c|x]; [|reflexivity]. cbn [tbind].
   destruct (tsetindex (al_ln_lookup A) (tlen pw - 1) (NCount (c + 1))) as [ln|x]; [|reflexivity]. cbn [tbind].
   destruct A as [alpha ng maxl minl g ipc epc lnc lnl]. al_proj.
-  rewrite (tfor_fold (parse_pos pw)); [apply tbind_ret|].
-  intros i S _. destruct S as [alpha' ng' maxl' minl' g' ipc' epc' lnc' lnl']. unfold parse_pos. cbv zeta. al_proj.
+  match goal with |- context [tfor (trange _ ?b) _ _ _] => first [replace b with (tlen pw - ng + 2)%Z by lia | idtac] end.
+  rewrite (tfor_fold_inv (parse_pos pw) (fun S => al_ngram S = ng)); [apply tbind_ret | | | reflexivity].
+  { intros i S S' _ HP HS. rewrite (parse_pos_ngram _ _ _ _ HS). exact HP. }
+  intros i S _ HP. destruct S as [alpha' ng' maxl' minl' g' ipc' epc' lnc' lnl']. cbn [al_ngram] in HP. subst ng'.
+  unfold parse_pos. cbv zeta. al_proj. rewrite ?Z.add_sub_assoc.
   rewrite !gen_alookup_is_in_alphabet_eq. al_proj.
-  set (k := tslice pw (Some i) (Some (i + ng' - 1)%Z)). unfold amem.
+  set (k := tslice pw (Some i) (Some (i + ng - 1)%Z)). unfold amem.
   unfold bump_next, new_entry.
   repeat (step; rewrite ?gen_alookup_is_in_alphabet_eq;
           repeat match goal with H : ?l = _ |- context [?l] => rewrite H end; step;
